@@ -208,22 +208,8 @@ static void gen_value(vf_rng *r, gen *g, tnode *t)
 static void gen_option(vf_rng *r, gen *g, tnode *parent)
 {
 	tnode *t = t_new(0);
-	const format *f = g->f;
-	/* anonymous data "value;": prefix style with option end character, empty option names admitted */
-	if (f->style == StylePrefix && f->oend && (g->opt & 0x10) && vf_chance(r, 1, 12)) {
-		bytes b = { 0, 0, 0 };
-		size_t n = (size_t) vf_range(r, 1, 20);
-		for (size_t i = 0; i < n; i++) {
-			int c = "abcdefghijklmnopqrstuvwxyz0123456789_ "[vf_below(r, 38)];
-			if (c == ' ' && (!i || i + 1 == n)) c = 'd';
-			b_put(&b, c);
-		}
-		t->val = b.d; t->vlen = b.n;
-		vf_count("tree:anonymous-data", 1);
-	} else {
-		gen_name(r, g, t, g->opt, 1, 0);
-		gen_value(r, g, t);
-	}
+	gen_name(r, g, t, g->opt, 1, 0);
+	gen_value(r, g, t);
 	t_add(parent, t);
 	g->nodes++; g->options++;
 }
@@ -423,6 +409,7 @@ static int h_getc(void *arg)
 typedef struct {
 	const char *phase;              /* readback | decoration */
 	const char *style;
+	int fstyle;
 	const char *desc;
 	const bytes *text;
 	uint64_t names, values, links;
@@ -481,11 +468,23 @@ static void compare(cmp *c, const tnode *model, const MPT_STRUCT(node) *parent, 
 			         c->desc, depth, where(t, i), id, excerpt(c->text));
 		} else {
 			size_t l = id ? strlen(id) : 0;
+			if (!t->section && c->fstyle != StylePrefix && t->nlen > 2 && isspace(t->name[1]) && id) {
+				/* mpt_parse_option() skips blanks behind the first character the section parser has taken */
+				size_t k = 1;
+				while (k < t->nlen && isspace(t->name[k])) k++;
+				if (l == t->nlen - (k - 1) && id[0] == (char) t->name[0] && !memcmp(id + 1, t->name + k, t->nlen - k)) {
+					if (vf_known("model:readback:option-name-blank-after-first-char")) { c->known_hit = 1; goto value; }
+					vf_fail("model:readback:option-name-blank-after-first-char",
+					        "%s: depth %d: %s read back without the blank(s) behind its first character: name[%zu]=%s; text: %s",
+					        c->desc, depth, where(t, i), l, vf_hex(h1, sizeof(h1), id, l), excerpt(c->text));
+				}
+			}
 			VF_CHECK(id && l == t->nlen && !memcmp(id, t->name, l), mkkey(c, t->nlen > 255 ? "name-over-255" : "name"),
 			         "%s: depth %d: %s read back as name[%zu]=%s; text: %s",
 			         c->desc, depth, where(t, i), l, id ? vf_hex(h1, sizeof(h1), id, l) : "(none)", excerpt(c->text));
 		}
 		c->names++;
+value:
 		/* value */
 		if (n->_meta) {
 			vf_at("mpt_node_data");
@@ -612,6 +611,7 @@ void vf_case(uint64_t idx, vf_rng *r)
 		memset(&c, 0, sizeof(c));
 		c.phase = mode == Canonical ? "readback" : "decoration";
 		c.style = style_name[f->style];
+		c.fstyle = f->style;
 		c.desc = desc;
 		c.text = &ro[mode].out;
 		if (vf_logging) {
